@@ -167,6 +167,15 @@ func (w *World) fieldAccesses(pkg, name string, fields []string) []access {
 						continue
 					}
 					out = append(out, access{x, f, true, fa.X, fld, "addr-escapes-to-" + calleeShort(calleeID(x))})
+				case *ssa.MakeInterface:
+					// &x.field converted to an interface and handed to a callee (heap.Interface)
+					if x.Referrers() != nil {
+						for _, u := range *x.Referrers() {
+							if c, ok := u.(*ssa.Call); ok {
+								out = append(out, access{c, f, true, fa.X, fld, "addr-escapes-to-" + calleeShort(calleeID(c))})
+							}
+						}
+					}
 				case *ssa.FieldAddr, *ssa.IndexAddr:
 					// nested field of a guarded struct field: treat as load+store site
 					out = append(out, access{rr, f, false, fa.X, fld, "subfield"})
